@@ -325,11 +325,13 @@ def gen_heat_loop(rng, n_cons=None, modes=None, with_hex=True, makeup=False):
         if mode == "MF_QE":
             c["mdot"], c["qext_w"] = m, q * (1 if rng.random() < 0.85 else -0.3)
         elif mode == "MF_DT":
-            c["mdot"], c["deltat_k"] = m, dT
+            # a negative temperature difference is a heat-injecting unit (the fluid leaves warmer)
+            c["mdot"], c["deltat_k"] = m, (dT if rng.random() < 0.85 else -0.4 * dT)
         elif mode == "MF_TR":
             c["mdot"], c["treturn_k"] = m, t_flow - dT
         elif mode == "QE_DT":
-            c["qext_w"], c["deltat_k"] = q, dT
+            sg = 1.0 if rng.random() < 0.85 else -0.4
+            c["qext_w"], c["deltat_k"] = sg * q, sg * dT
         elif mode == "QE_TR":
             c["qext_w"], c["treturn_k"] = q, t_flow - dT
         c["mode"] = mode
@@ -393,7 +395,11 @@ def build(spec, run_options=False, order=None, row_perm=None):
     come after pipes when junction-pipe valves exist); `row_perm`: table -> permutation of row creation order
     (elements then need explicit "index" labels to keep their identity)."""
     import pandapipes as pp
-    net = pp.create_empty_network(fluid=spec["fluid"])
+    if spec.get("sector"):
+        from pandapipes.pandapipes_net import Sector
+        net = pp.create_empty_network(fluid=spec["fluid"], sector=Sector(spec["sector"]))
+    else:
+        net = pp.create_empty_network(fluid=spec["fluid"])
     J = []
     jorder = list(range(len(spec["junctions"])))
     if row_perm and "junctions" in row_perm:
